@@ -274,7 +274,21 @@ func (m *model) Apply(ei int) string {
 	okAll := true
 	// Quotas referenced by a Limiter are charged by that Limiter (their system flows are
 	// switched to no-ops): child first, the parent only if the child had room.
-	if e.target == "c" {
+	if e.target == "c" && m.c.BothLimit {
+		// two flows match the child URL: the flow on the broader pattern (the parent's
+		// Limiter) runs first and, when the parent is full, answers before the child's
+		// Limiter is reached; otherwise the child's Limiter follows
+		keys = append(keys, pKey)
+		if !m.chargeN(pKey, m.c.Max, now, cost) {
+			okAll = false
+		} else {
+			cKey := "C_" + gOf(m.c.ChildGroup)
+			keys = append(keys, cKey)
+			if !m.charge(cKey, m.childMax(), now) {
+				okAll = false
+			}
+		}
+	} else if e.target == "c" {
 		cGrouped := m.c.ChildGroup
 		if m.c.ChildPct > 0 {
 			cGrouped = m.c.Group // a percentage child shares the parent's grouping
@@ -285,7 +299,7 @@ func (m *model) Apply(ei int) string {
 			okAll = false
 		}
 	}
-	if okAll {
+	if okAll && !(e.target == "c" && m.c.BothLimit) {
 		keys = append(keys, pKey)
 		if !m.chargeN(pKey, m.c.Max, now, cost) {
 			okAll = false
